@@ -134,6 +134,35 @@ def empty_displays(tree):
     return n_done
 
 
+def attr_builtins(tree):
+    """`setattr(x, "name", v)` (as a statement) -> `x.name = v` ; `getattr(x, "name")` (two arguments) -> `x.name`"""
+    n_done = 0
+
+    class T(ast.NodeTransformer):
+        def visit_Expr(self, n):
+            nonlocal n_done
+            self.generic_visit(n)
+            c = n.value
+            if isinstance(c, ast.Call) and isinstance(c.func, ast.Name) and c.func.id == "setattr" and len(c.args) == 3 and not c.keywords \
+                    and isinstance(c.args[1], ast.Constant) and isinstance(c.args[1].value, str) and c.args[1].value.isidentifier():
+                n_done += 1
+                tgt = ast.Attribute(value=c.args[0], attr=c.args[1].value, ctx=ast.Store())
+                return ast.fix_missing_locations(ast.copy_location(ast.Assign(targets=[tgt], value=c.args[2], lineno=n.lineno), n))
+            return n
+
+        def visit_Call(self, n):
+            nonlocal n_done
+            self.generic_visit(n)
+            if isinstance(n.func, ast.Name) and n.func.id == "getattr" and len(n.args) == 2 and not n.keywords \
+                    and isinstance(n.args[1], ast.Constant) and isinstance(n.args[1].value, str) and n.args[1].value.isidentifier():
+                n_done += 1
+                return ast.fix_missing_locations(ast.copy_location(ast.Attribute(value=n.args[0], attr=n.args[1].value, ctx=ast.Load()), n))
+            return n
+
+    T().visit(tree)
+    return n_done
+
+
 def merge_nested_ifs(tree):
     """`if a: (only statement) if b: X`, neither with an else -> `if a and b: X` (innermost first)."""
     n_done = 0
